@@ -2,6 +2,7 @@ from collections import defaultdict
 from .tree import *
 from .transform import *
 import numpy as np
+from einx._src.util import _verif
 
 
 def cse(expressions, cse_concat=True, cse_in_brackets=False, verbose=False):
@@ -57,6 +58,7 @@ def cse(expressions, cse_concat=True, cse_in_brackets=False, verbose=False):
         if axes_used_only_in_this_subexpression:
             common_exprs.add(str_expr)
 
+    common_exprs = _verif.choose_order(common_exprs, "cse.common_exprs")
     common_exprs = [str_to_common_expr[k] for k in common_exprs]  # list of common_expr(=list of exprlist)
 
     if verbose:
